@@ -483,6 +483,158 @@ theorem removeAt_spec (hI : Lawful I) (t : Tree T) (pos : Nat) (h : WFt I t) :
       refine ⟨by simp [Except.map, hown], ?_, hw⟩
       rw [hm, List.eraseIdx_eq_take_drop_succ, ← List.drop_drop, hdd]
 
+/-! ### re-using what the API hands back -/
+
+/-- an item that can stand for a one-element sequence (what `insert_at` / `from_item` expect):
+    stored size 1, stored aggregate = the aggregate of its own element -/
+def Singleton (it : T) : Prop := I.sz it = 1 ∧ I.agg it = I.inj (I.own it)
+
+theorem WFt_single_iff (hI : Lawful I) (it : T) (p : Nat) : WFt I (single it p) ↔ Singleton I it := by
+  simp [single, WFt, Singleton, Tree.count, seq, hI.mul_one]
+
+theorem Singleton_new (hI : Lawful I) (v : V) : Singleton I (I.new v) := ⟨hI.new_sz v, hI.new_agg v⟩
+
+theorem WFt_leaf (hI : Lawful I) (it : T) (p q : Nat) (h : WFt I (.node it p .nil .nil)) : WFt I (single it q) :=
+  (WFt_single_iff I hI it q).2 ((WFt_single_iff I hI it p).1 h)
+
+/-- the roots of both results of `split_at` carry no pending modification (they were pushed) -/
+theorem splitAt_root_pa (hI : Lawful I) (t : Tree T) (pos : Nat) :
+    (∀ it p l r, (splitAt I t pos).1 = .node it p l r → ∀ a, I.pa it a = a) ∧
+    (∀ it p l r, (splitAt I t pos).2 = .node it p l r → ∀ a, I.pa it a = a) := by
+  fun_induction splitAt I t pos with
+  | case1 pos =>
+    constructor
+    · intro it p l r h; cases h
+    · intro it p l r h; cases h
+  | case2 pos it p l r q lsz hgt s ih =>
+    refine ⟨?_, ih.2⟩
+    intro it' p' l' r' h a
+    simp only [upd, Tree.node.injEq] at h
+    rw [← h.1, hI.update_pa]; exact pushParts_pa I hI it l r a
+  | case3 pos it p l r q lsz hle s ih =>
+    refine ⟨ih.1, ?_⟩
+    intro it' p' l' r' h a
+    simp only [upd, Tree.node.injEq] at h
+    rw [← h.1, hI.update_pa]; exact pushParts_pa I hI it l r a
+
+/-- **what `remove_at` returns**: the item of a one-node tree — stored size 1, stored aggregate
+    the aggregate of its own element, no pending modification — so that it can be handed to
+    `insert_at` / `from_item` again -/
+theorem removeAt_item (hI : Lawful I) (t : Tree T) (pos : Nat) (h : WFt I t) (it : T)
+    (hr : (removeAt I t pos).1 = .ok it) : Singleton I it ∧ ∀ a, I.pa it a = a := by
+  obtain ⟨_, _, _, a4⟩ := splitAt_spec I hI t pos h
+  obtain ⟨b1, _, b3, _⟩ := splitAt_spec I hI (splitAt I t pos).2 1 a4
+  have hpa := (splitAt_root_pa I hI (splitAt I t pos).2 1).1
+  simp only [removeAt] at hr
+  cases hs2 : (splitAt I (splitAt I t pos).2 1).1 with
+  | nil => rw [hs2] at hr; cases hr
+  | node it' p l r =>
+    rw [hs2] at hr b1 b3
+    simp only [Except.ok.injEq] at hr
+    subst hr
+    have h1 : (seq I (Tree.node it' p l r)).length ≤ 1 := by rw [b1]; simp [List.length_take]; omega
+    rw [seq_length] at h1
+    simp only [Tree.count] at h1
+    have hl : l = .nil := by
+      cases l with
+      | nil => rfl
+      | node => simp [Tree.count] at h1; omega
+    have hr' : r = .nil := by
+      cases r with
+      | nil => rfl
+      | node => simp [Tree.count] at h1; omega
+    subst hl; subst hr'
+    exact ⟨(WFt_single_iff I hI it' p).1 b3, hpa it' p _ _ hs2⟩
+
+/-- `remove_at` succeeds exactly for the positions that exist -/
+theorem removeAt_ok_iff (hI : Lawful I) (t : Tree T) (pos : Nat) (h : WFt I t) :
+    (∃ it, (removeAt I t pos).1 = .ok it) ↔ pos < (seq I t).length := by
+  have h1 := (removeAt_spec I hI t pos h).1
+  constructor
+  · rintro ⟨it, e⟩
+    rw [e] at h1
+    by_cases hp : pos < (seq I t).length
+    · exact hp
+    · rw [List.getElem?_eq_none_iff.2 (by omega)] at h1; simp [Except.map] at h1
+  · intro hp
+    rw [List.getElem?_eq_getElem hp] at h1
+    cases hr : (removeAt I t pos).1 with
+    | ok it => exact ⟨it, rfl⟩
+    | error e => rw [hr] at h1; simp [Except.map] at h1
+
+/-- `insert_at(k, it)` for ANY item that stands for one element (a fresh `Item::new`, or an item
+    `remove_at` returned earlier) -/
+theorem insertAt_item_spec (hI : Lawful I) (t : Tree T) (pos : Nat) (it : T) (p : Nat) (h : WFt I t)
+    (hs : Singleton I it) :
+    seq I (insertAt I t pos it p) = (seq I t).take pos ++ I.own it :: (seq I t).drop pos ∧
+    WFt I (insertAt I t pos it p) := by
+  obtain ⟨s1, s2, s3, s4⟩ := splitAt_spec I hI t pos h
+  have hw := (WFt_single_iff I hI it p).2 hs
+  unfold insertAt
+  refine ⟨?_, merge_WFt I hI _ _ (merge_WFt I hI _ _ s3 hw) s4⟩
+  rw [merge_seq' I hI, merge_seq' I hI, s1, s2]
+  simp [single, seq]
+
+/-- cloning the only element of a treap (`first()`, `last()` or `collect()[0]`) gives an item that
+    stands for that element -/
+theorem pick_spec (hI : Lawful I) (w : Nat) (t : Tree T) (h : WFt I t) (hc : (seq I t).length ≤ 1) (p : Nat) :
+    (pick I w t).1.map I.own = (if w = 1 then (seq I t).getLast? else (seq I t).head?) ∧
+    seq I (pick I w t).2 = seq I t ∧ WFt I (pick I w t).2 ∧
+    seq I (ofItem? (pick I w t).1 p) = seq I t ∧ WFt I (ofItem? (pick I w t).1 p) := by
+  rw [seq_length] at hc
+  cases t with
+  | nil =>
+    have e : pick I w (.nil : Tree T) = (none, .nil) := by
+      unfold pick; split
+      · simp [first]
+      · split
+        · simp [last]
+        · simp [collect]
+    rw [e]; simp [seq, WFt, ofItem?]
+  | node it q l r =>
+    simp only [Tree.count] at hc
+    have hl : l = .nil := by
+      cases l with
+      | nil => rfl
+      | node => simp [Tree.count] at hc; omega
+    have hr : r = .nil := by
+      cases r with
+      | nil => rfl
+      | node => simp [Tree.count] at hc; omega
+    subst hl; subst hr
+    have hseq : seq I (.node it q .nil .nil) = [I.own it] := by simp [seq]
+    by_cases h0 : w = 0
+    · have e : pick I w (.node it q .nil .nil) = (some it, .node it q .nil .nil) := by
+        unfold pick; rw [if_pos h0]; simp [first]
+      rw [e, hseq]
+      have hw1 : ¬ w = 1 := by omega
+      refine ⟨by simp [hw1], hseq, h, by simp [ofItem?, single, seq], WFt_leaf I hI it q p h⟩
+    · by_cases h1 : w = 1
+      · have e : pick I w (.node it q .nil .nil) = (some it, .node it q .nil .nil) := by
+          unfold pick; rw [if_neg h0, if_pos h1]; simp [last]
+        rw [e, hseq]
+        refine ⟨by simp [h1], hseq, h, by simp [ofItem?, single, seq], WFt_leaf I hI it q p h⟩
+      · obtain ⟨c1, c2, c3⟩ := collect_spec' I hI _ h
+        have e : pick I w (.node it q .nil .nil) =
+            ((collect I (.node it q .nil .nil)).1.head?, (collect I (.node it q .nil .nil)).2) := by
+          unfold pick; rw [if_neg h0, if_neg h1]
+        rw [e]
+        have hcol : (collect I (.node it q .nil .nil)).1 = [(pushParts I it .nil .nil).1] := by
+          rw [collect]; simp [collect, pushParts, Tree.setItem?]
+        have hcol2 : (collect I (.node it q .nil .nil)).2 = .node (pushParts I it .nil .nil).1 q .nil .nil := by
+          rw [collect]; simp [collect, pushParts, Tree.setItem?]
+        rw [hcol2] at c3
+        rw [hseq] at c1 c2 ⊢
+        rw [hcol] at c1
+        have hown : I.own (pushParts I it .nil .nil).1 = I.own it := by simpa using c1
+        refine ⟨by simp [h1, hcol, hown], ?_, ?_, ?_, ?_⟩
+        · exact c2
+        · show WFt I (collect I (.node it q .nil .nil)).2
+          rw [hcol2]; exact c3
+        · simp [hcol, ofItem?, single, seq, hown]
+        · simp only [hcol, List.head?_cons, ofItem?]
+          exact WFt_leaf I hI _ q p c3
+
 end Rlib.Treap
 
 namespace Rlib.Treap
